@@ -4,11 +4,13 @@ One `CASE` line per case and a `SUMMARY` line (CONVENTIONS section 3).
 -/
 import Driver.Trace
 import Driver.C20
+import Driver.C18
 
 open TV.Trace
 
 def runProp (prop : String) (c : Case) : Option Verdict :=
   if prop == "C20" then some (TV.DriverC20.runCase c)
+  else if prop == "C18" then some (TV.DriverC18.runCase c)
   else none
 
 def main (args : List String) : IO UInt32 := do
